@@ -8,8 +8,15 @@
 (*               disallowed; expimp = <<ok, exported lines, re-exported lines after parse_proof,  *)
 (*               projected lines of the re-imported state, its re-check>>; copy = <<applicable,    *)
 (*               projection of the ORIGINAL before, after the operation on the copy>>            *)
+(*               copy[2], copy[3] = [lines, exp_ok, exp, exp_err]: the lines AND the exported form (printed        *)
+(*               arguments) of the original                                                      *)
 (*  kind "cache": ProofCache.states before / after insert_step(index), and an independent replay *)
-EXTENDS Naturals, Sequences, FiniteSets, TLC, TraceLib
+(*  kind "lineedit": one step of a behaviour of spec/C13_LineEdit.tla performed on a real ProofState through          *)
+(*               add_line_before / remove_line / replace_id / set_line: op = <<name, id, id>>, before / after = the    *)
+(*               projected real proof << <<id, uid, prevs>> ... >>, expect = the spec's proof after the step, raised,   *)
+(*               copy = <<done on a copy, the original before, after>>.  Clauses = the definitions of C13_Lines, the   *)
+(*               same ones that are invariants of the S spec; code /= spec without a failing clause is a divergence    *)
+EXTENDS Naturals, Sequences, FiniteSets, TLC, TraceLib, C13_Lines
 Id(ln) == ln[1]
 Prefix(s, n) == SubSeq(s, 1, n)
 \* kernel/proof.py ItemID.can_depend_on
@@ -38,7 +45,16 @@ EditClauses(e) ==
 CacheClauses(e) ==
   (IF \A i \in 1..(e.index + 1) : i <= Len(e.after) /\ i <= Len(e.before) /\ e.after[i] = e.before[i] THEN {} ELSE {"HistoryIntact"})
   \cup (IF e.after = e.expect THEN {} ELSE {"HistoryIsReplay"})
-ClausesOf(e) == CASE e.kind = "edit" -> EditClauses(e) [] e.kind = "cache" -> CacheClauses(e) [] OTHER -> {}
-TNext == LET e == Trace[l] IN TStep(e.tid, ClausesOf(e), e.kind \in {"edit", "cache"}, FALSE)
+LineEditClauses(e) ==
+  IF e.raised THEN {} ELSE
+  (IF LContiguous(e.after) THEN {} ELSE {"Contiguous"})
+  \cup (IF TrackOK(e.before, e.after, e.op) THEN {} ELSE {"CitationsTrackItems"})
+  \cup (IF NoDanglingOK(e.before, e.after, e.op) THEN {} ELSE {"NoDangling"})
+  \cup (IF e.copy[1] /\ e.copy[2] # e.copy[3] THEN {"CopyIsolated"} ELSE {})
+ClausesOf(e) == CASE e.kind = "edit" -> EditClauses(e) [] e.kind = "cache" -> CacheClauses(e) [] e.kind = "lineedit" -> LineEditClauses(e) [] OTHER -> {}
+Nontrivial(e) == e.kind \in {"edit", "cache"} \/ (e.kind = "lineedit" /\ ~e.raised)
+\* the real line edit raised on a step the specification allows, or produced another proof than the specification's
+Diverges(e) == e.kind = "lineedit" /\ (e.raised \/ e.after # e.expect)
+TNext == LET e == Trace[l] IN TStep(e.tid, ClausesOf(e), Nontrivial(e), Diverges(e))
 TSpec == TInit /\ [][TNext]_l
 =============================================================================
